@@ -232,6 +232,11 @@ pub struct St {
     pub lifecycle_expected: Option<usize>,
     /// additional expected epoll entries (adapters, composite children)
     pub extra_table: Vec<(u64, u32, Option<i32>)>,
+    /// poller keys left behind by a failed multi-step registration whose source the program
+    /// kept: their events belong to nobody and must reach nobody
+    pub leaked_keys: std::collections::BTreeSet<usize>,
+    /// the rejected sources themselves
+    pub kept_rejected: Vec<Box<dyn std::any::Any>>,
     pub tasks: BTreeMap<Id, crate::exec::TaskM>,
     pub adapters: BTreeMap<Id, crate::adapter::AdapterM>,
     pub adapter_keys: BTreeMap<usize, Id>,
